@@ -128,6 +128,13 @@ class Wrappers(Maps):
         ex.raise_if(st, RAISES(f.t, a, kd.t), 'Exception')
         return V(RES(f.t, a, kd.t))
 
+    def call_value(self, ex, st, e, fn, args, kwargs, star=None, dstar=None):
+        if fn.kind == 'val' and fn.f.get('ty') == 'callable' and not args and not kwargs and star is not None and dstar is not None:
+            if 'calls' not in st.ghost:
+                st.ghost['calls'] = IntVal(0)
+            return self.call_f(ex, st, fn, star, dstar)
+        return Maps.call_value(self, ex, st, e, fn, args, kwargs, star=star, dstar=dstar)
+
     def binop(self, ex, st, e, op, a, b):
         if op == 'Mod' and a.kind == 'str':
             return V(fresh_val('fmt'), 'str')
@@ -459,9 +466,329 @@ def kwargs_support_section(ctx, M):
     ctx.cover(pre + 'precondition', [DOM(KW, X0), Not(MEM(P, X0))] + inst)
 
 
+# =============================================================================================== wrapper.__init__ / __call__
+CLS_FUNCTION = Const('class_function', Cls)
+WRAPPED_RESULT = Function('wrapped_result', Lst, Dct, Val)
+
+
+class WrapObjs(Wrappers):
+    """wrapper objects *with identity*: a symbolic reference SV('wref', oid) into a heap kept in st.ghost['heap'] (oid -> the items
+    'function', 'function_fullargspec', ... held python-side, and `rest`: the other parameters as a symbolic mapping).  Aliases
+    (f = function; f[_function] = ...) therefore see each other's writes; copy.copy allocates a new object with the same items."""
+
+    def __init__(self, *a, **k):
+        Wrappers.__init__(self, *a, **k)
+        self._oid = 0
+        self.dispatched = []
+
+    def new_obj(self, st, cls, tag, items, rest):
+        self._oid += 1
+        heap = dict(st.ghost.get('heap', {}))
+        heap[self._oid] = dict(items=dict(items), rest=rest)
+        st.ghost['heap'] = heap
+        return SV('wref', None, oid=self._oid, cls=cls, tag=tag)
+
+    @staticmethod
+    def obj(st, ref):
+        return st.ghost['heap'][ref.oid]
+
+    @staticmethod
+    def write(st, ref, items=None, rest=None):
+        heap = dict(st.ghost['heap'])
+        o = dict(heap[ref.oid])
+        if items is not None:
+            o['items'] = dict(o['items']); o['items'].update(items)
+        if rest is not None:
+            o['rest'] = rest
+        heap[ref.oid] = o
+        st.ghost['heap'] = heap
+
+    def call(self, ex, st, e, fname, args, kwargs):
+        if fname == 'copy' and len(args) == 1 and args[0].kind == 'wref':
+            o = self.obj(st, args[0])
+            ex.use('axiom:copy.copy(x) is a new top-level object of the same class with the same items (children shared)')
+            return self.new_obj(st, args[0].cls, args[0].tag, o['items'], o['rest'])
+        if fname == 'type' and len(args) == 1 and args[0].kind == 'wref':
+            return SV('cls', None, tag=args[0].tag, base=args[0].cls)
+        if fname == 'hasattr' and len(args) == 2 and args[0].kind in ('val', 'wref') and args[1].kind == 'str':
+            ex.use('uninterpreted:hasattr(f, name) of the decorated function')
+            return B(z3.Bool(fresh_name('hasattr_' + args[1].lit)))
+        if fname == 'getattr' and len(args) == 2 and args[0].kind in ('val', 'wref') and args[1].kind == 'str' and args[1].lit.startswith('__'):
+            return V(fresh_val('attr_' + args[1].lit))
+        if fname == 'getattr' and len(args) == 3 and args[0].kind == 'wref' and args[1].kind == 'str':
+            ca = self.class_attr(args[0].cls, args[1].lit)
+            if ca is not None and ca[0] == 'method':
+                return SV('bound', None, recv=args[0], mname=args[1].lit)
+            raise OutOfSubset('getattr(wrapper, %r, default)' % args[1].lit)
+        if fname == 'setattr' and len(args) == 3 and args[0].kind == 'wref' and args[1].kind == 'str':
+            if args[1].lit.startswith('_'):
+                ex.use('model:setattr(self, "_name", v) sets a python attribute (dictattr.__setattr__), not an item')
+                return NONE
+            self.write(st, args[0], items={args[1].lit: args[2]})
+            return NONE
+        return Wrappers.call(self, ex, st, e, fname, args, kwargs)
+
+    def attr(self, ex, st, e, recv, name):
+        if recv.kind == 'wref':
+            ca = self.class_attr(recv.cls, name)
+            if ca is not None and ca[0] == 'property' and ca[1] in ex.inline:
+                return ex.call_inline_expr(st, ca[1], [recv], {})
+            if ca is not None and ca[0] == 'method':
+                return SV('bound', None, recv=recv, mname=name)
+            o = self.obj(st, recv)
+            if ca is None and name in o['items']:
+                ex.use('C16:attribute access on a dictattr mirrors item access (C16 getattr.key)')
+                return o['items'][name]
+            raise OutOfSubset('attribute %s of a wrapper object' % name)
+        return Wrappers.attr(self, ex, st, e, recv, name)
+
+    def method(self, ex, st, e, recv, mname, args, kwargs):
+        if recv.kind == 'wref':
+            if mname == 'items' and not args:
+                return SV('witems', None, of=recv)
+            key = self.resolve(recv.cls, mname)
+            if key is not None and key in ex.inline:
+                return ex.call_inline_expr(st, key, [recv] + list(args), kwargs)
+            return NotImplemented
+        return Wrappers.method(self, ex, st, e, recv, mname, args, kwargs)
+
+    def subscript(self, ex, st, e, recv, idx):
+        if recv.kind == 'wref' and idx.kind == 'str':
+            o = self.obj(st, recv)
+            if idx.lit in o['items']:
+                return o['items'][idx.lit]
+            raise OutOfSubset('item %r of a wrapper object' % idx.lit)
+        return Wrappers.subscript(self, ex, st, e, recv, idx)
+
+    def store_subscript(self, ex, st, tg, recv, idx, v):
+        if recv.kind == 'wref' and idx.kind == 'str':
+            self.mutations.append(('wrapper[%r] = ...' % idx.lit, recv.oid))
+            self.write(st, recv, items={idx.lit: v})
+            return None
+        return Wrappers.store_subscript(self, ex, st, tg, recv, idx, v)
+
+    def bound_star(self, ex, st, fn, args, kwargs, star, dstar):
+        recv = fn.recv
+        if recv.kind == 'super' and recv.of.kind == 'wref' and fn.mname == '__init__':
+            if args or kwargs or star is not None or dstar is None:
+                raise OutOfSubset('super().__init__ with positional arguments')
+            ex.use('assumed contract:dict.__init__(**kw) on a new object stores exactly the items of kw')
+            self.write(st, recv.of, rest=dstar)
+            return NONE
+        if recv.kind == 'wref' and fn.mname == 'wrapped':
+            if args or kwargs or star is None or dstar is None:
+                raise OutOfSubset('wrapped called in an unexpected form')
+            self.dispatched.append((recv, star, dstar))
+            ex.use('callee contract:wrapped(*args, **kwargs) of the subclass is under contract in its own section; here its result is opaque')
+            return V(WRAPPED_RESULT(star.pl.t, self.reify_dict(dstar.pd).t))
+        return Wrappers.bound_star(self, ex, st, fn, args, kwargs, star, dstar)
+
+    def dictcomp(self, ex, st, e):
+        g = e.generators[0]
+        it = ex.eval(st, g.iter)
+        if it.kind != 'witems':
+            return Maps.dictcomp(self, ex, st, e)
+        if not (isinstance(g.target, ast.Tuple) and len(g.target.elts) == 2 and all(isinstance(x, ast.Name) for x in g.target.elts)
+                and isinstance(e.key, ast.Name) and isinstance(e.value, ast.Name) and e.key.id == g.target.elts[0].id and e.value.id == g.target.elts[1].id):
+            raise OutOfSubset('dict comprehension over the items of a wrapper in an unexpected form')
+        kn, vn = e.key.id, e.value.id
+        o = self.obj(st, it.of)
+        env = dict(st.env)
+        theory = self
+
+        def cond_sv(k, v):
+            env2 = dict(env); env2[kn] = k; env2[vn] = v
+            cs = []
+            for c in g.ifs:
+                val, pend, extra = theory._eval_pure(ex, st, env2, c, 'filter')
+                if pend or extra:
+                    raise OutOfSubset('comprehension filter that can raise')
+                cs.append(ex.truth(st, val))
+            return And(*cs) if cs else BoolVal(True)
+        rest = o['rest'].pd if o['rest'] is not None else PDict.empty()
+        res = rest.filtered(lambda k, v: cond_sv(V(k, 'str'), V(v)))
+        for name, item in o['items'].items():
+            c = z3.simplify(cond_sv(S(name), item))
+            if z3.is_true(c):
+                res = res.stored(self.strv(name), self.to_val(ex, item))
+            elif not z3.is_false(c):
+                raise OutOfSubset('filter undecided on the item %r' % name)
+        ex.use('axiom:{k: v for k, v in d.items() if p(k, v)} keeps exactly the items satisfying p')
+        return self.mk_dict(res)
+
+    def is_none(self, ex, st, v):
+        if v.kind in ('wref', 'bound'):
+            return BoolVal(False)
+        return Wrappers.is_none(self, ex, st, v)
+
+    def binop(self, ex, st, e, op, a, b):
+        if op == 'Mod' and a.kind == 'str' and b.kind == 'str' and a.t is None and b.t is None:
+            return S(a.lit % b.lit)
+        return Wrappers.binop(self, ex, st, e, op, a, b)
+
+
+def wrapper_section(ctx, M):
+    """wrapper.__init__: no double wrapping.  W is the symbolic class of `self` (any subclass of wrapper whose own __init__ forwards to
+    wrapper.__init__), V a different wrapper class, g a plain function.
+      direct   W(w1, **kw2) with w1 = W(g, **kw1)        ->  function is g (not w1), parameters {**kw1, **kw2}, w1 untouched
+      plain    W(g, **kw2)                               ->  function is g, parameters kw2
+      chain    W(v1, **kw2) with v1 = V(W(g, **kw1))     ->  function is a *copy* of v1 whose function is g; parameters {**kw1, **kw2};
+                                                             v1 itself still wraps its W(g) (the unwrapping writes into the copy)
+    wrapper.__call__: with a function set, the call is forwarded to `wrapped` with the same positional / keyword containers."""
+    mdec = M['mdec']
+    fdef = M['inline']['wrapper.__init__'][1]
+    G = Const('g', Val)
+    TAG_W, TAG_V = Consts('class_W class_V', Cls)
+    K0 = Const('K0', Val)
+
+    def setup(name):
+        th = WrapObjs(M['classes'])
+        th.on_lookup = on_lookup
+        ex = Exec(mdec, [th, Globals(mdec, ['_function', '_spec'])], inline=M['inline'], name=name)
+        st = State()
+        st.ghost['heap'] = {}
+        st.pc += [TAG_W != TAG_V, TAG_W != CLS_FUNCTION, TAG_V != CLS_FUNCTION]
+        return th, ex, st
+
+    def params(th, name):
+        d = th.sym_dict(name, cls='dict', own=True, kty='str')
+        return d, [Not(d.pd.dom(th.strv('function'))), Not(d.pd.dom(th.strv('function_fullargspec')))]
+
+    g_sv = SV('val', G, ty='callable', tag=CLS_FUNCTION)
+
+    def run(label, build_function):
+        th, ex, st = setup('wrapper.__init__.' + label)
+        kw2, pre2 = params(th, 'kw2')
+        st.pc += pre2
+        function, originals = build_function(th, st)
+        self_ = th.new_obj(st, 'wrapper', TAG_W, {}, None)
+        heap0 = st.ghost['heap']
+        outs = ex.run_function(st, 'wrapper.__init__', [self_, function], {'**': kw2})
+        inst = th.inst([K0])
+        for ob in ex.obligations:
+            ob.hyps = list(ob.hyps) + inst
+        ctx.absorb(ex)
+        ctx.record_function(mdec, 'wrapper.__init__', fdef, ex.stmts_executed)
+        return th, ex, st, kw2, self_, heap0, outs, inst, originals
+
+    def untouched(out, heap0, refs):
+        h = out.st.ghost['heap']
+        return BoolVal(all(h[r.oid]['items'] == heap0[r.oid]['items'] and h[r.oid]['rest'] is heap0[r.oid]['rest'] for r in refs))
+
+    def hidden(th, kw2):
+        from pyvc.th_maps import STARTSWITH
+        return STARTSWITH(K0, th.strv('_'))
+    kwr = dict(witness=dict(K0=K0), replay=rp('wrapper'))
+
+    def posts(label, th, ex, kw2, self_, heap0, outs, inst, originals, expect_function, expect_params):
+        pre = 'wrapper.__init__.%s.' % label
+        nret = 0
+        for out in outs:
+            hy = ex.facts + out.st.pc + inst
+            if out.kind == 'raise':
+                ctx.post(pre + 'raises_only_ValueError_for_hidden_parameters', hy, BoolVal(out.val == 'ValueError'), kind='safety', **kwr)
+                continue
+            nret += 1
+            o = th.obj(out.st, self_)
+            fn = o['items'].get('function')
+            ctx.post(pre + 'no_double_wrapping', hy, expect_function(out, fn), **kwr)
+            ctx.post(pre + 'argspec_cache_reset', hy, BoolVal(o['items'].get('function_fullargspec') is not None and o['items']['function_fullargspec'].kind == 'none'), **kwr)
+            rest = o['rest']
+            if rest is None or rest.kind != 'pdict':
+                ctx.post(pre + 'parameters_are_stored', hy, BoolVal(False), **kwr)
+            else:
+                dom, get = expect_params
+                ctx.post(pre + 'parameters_keys', hy, rest.pd.dom(K0) == dom(K0), **kwr)
+                ctx.post(pre + 'parameters_values', hy + [rest.pd.dom(K0)], rest.pd.get(K0) == get(K0), **kwr)
+            ctx.post(pre + 'argument_objects_untouched', hy, untouched(out, heap0, originals), kind='frame', **kwr)
+        if not nret:
+            raise OutOfSubset('wrapper.__init__ (%s) has no returning path' % label)
+
+    # ---- plain function
+    def plain():
+        th, ex, st, kw2, self_, heap0, outs, inst, originals = run('plain', lambda th, st: (g_sv, []))
+        posts('plain', th, ex, kw2, self_, heap0, outs, inst, originals,
+              lambda out, fn: BoolVal(fn is not None and fn.kind == 'val') if fn is None or fn.kind != 'val' else fn.t == G,
+              (kw2.pd.dom, kw2.pd.get))
+    ctx.guarded('wrapper.__init__.plain', plain)
+
+    # ---- W(W(g))
+    def direct():
+        box = {}
+
+        def build(th, st):
+            kw1, pre1 = params(th, 'kw1')
+            st.pc += pre1
+            w1 = th.new_obj(st, 'wrapper', TAG_W, dict(function=g_sv, function_fullargspec=NONE), kw1)
+            box['kw1'] = kw1
+            return w1, [w1]
+        th, ex, st, kw2, self_, heap0, outs, inst, originals = run('direct', build)
+        kw1 = box['kw1']
+        posts('direct', th, ex, kw2, self_, heap0, outs, inst, originals,
+              lambda out, fn: (fn.t == G) if (fn is not None and fn.kind == 'val') else BoolVal(False),
+              (lambda x: Or(kw1.pd.dom(x), kw2.pd.dom(x)), lambda x: If(kw2.pd.dom(x), kw2.pd.get(x), kw1.pd.get(x))))
+    ctx.guarded('wrapper.__init__.direct', direct)
+
+    # ---- W(V(W(g)))
+    def chain():
+        box = {}
+
+        def build(th, st):
+            kw1, pre1 = params(th, 'kw1')
+            kwv, prev = params(th, 'kwv')
+            st.pc += pre1 + prev
+            w1 = th.new_obj(st, 'wrapper', TAG_W, dict(function=g_sv, function_fullargspec=NONE), kw1)
+            v1 = th.new_obj(st, 'wrapper', TAG_V, dict(function=w1, function_fullargspec=NONE), kwv)
+            box.update(kw1=kw1, kwv=kwv, w1=w1, v1=v1)
+            return v1, [w1, v1]
+        th, ex, st, kw2, self_, heap0, outs, inst, originals = run('chain', build)
+        kw1, kwv, v1 = box['kw1'], box['kwv'], box['v1']
+
+        def expect(out, fn):
+            if fn is None or fn.kind != 'wref' or fn.oid == v1.oid:
+                return BoolVal(False)
+            inner = th.obj(out.st, fn)
+            f2 = inner['items'].get('function')
+            ok = f2 is not None and f2.kind == 'val' and inner['rest'] is kwv
+            return And(fn.tag == TAG_V, f2.t == G) if ok else BoolVal(False)
+        posts('chain', th, ex, kw2, self_, heap0, outs, inst, originals, expect,
+              (lambda x: Or(kw1.pd.dom(x), kw2.pd.dom(x)), lambda x: If(kw2.pd.dom(x), kw2.pd.get(x), kw1.pd.get(x))))
+    ctx.guarded('wrapper.__init__.chain', chain)
+
+    # ---- wrapper.__call__ forwards to wrapped
+    def call_():
+        fcall = M['inline']['wrapper.__call__'][1]
+        for cname in ('try_back', 'try_value', 'kwargs_support', 'cache_func'):
+            th, ex, st = setup('wrapper.__call__.' + cname)
+            args, kwargs = call_inputs(th)
+            self_ = th.new_obj(st, cname, TAG_W, dict(function=g_sv, function_fullargspec=NONE), None)
+            outs = ex.run_function(st, 'wrapper.__call__', [self_], {'*': args, '**': kwargs})
+            inst = th.inst([K0])
+            for ob in ex.obligations:
+                ob.hyps = list(ob.hyps) + inst
+            ctx.absorb(ex)
+            ctx.record_function(mdec, 'wrapper.__call__', fcall, ex.stmts_executed, excluded=['decorator-factory path (function is None): constructs type(self)(function = args[0], **parameters)'])
+            pre = 'wrapper.__call__.%s.' % cname
+            nret = 0
+            for out in outs:
+                hy = ex.facts + out.st.pc + inst
+                if out.kind != 'return':
+                    ctx.post(pre + 'never_raises_by_itself', hy, BoolVal(False), kind='safety', **kwr)
+                    continue
+                nret += 1
+                ok = len(th.dispatched) == 1 and th.dispatched[0][0].oid == self_.oid and th.dispatched[0][1].pl.t is not None \
+                    and th.dispatched[0][1].pl.t.eq(A) and th.dispatched[0][2].pd.t is not None and th.dispatched[0][2].pd.t.eq(KW)
+                ctx.post(pre + 'forwards_to_wrapped_with_the_same_arguments', hy, BoolVal(ok), **kwr)
+                ctx.post(pre + 'returns_what_wrapped_returns', hy, th.to_val(ex, out.val) == WRAPPED_RESULT(A, KW), **kwr)
+            if not nret:
+                raise OutOfSubset('wrapper.__call__ has no returning path')
+    ctx.guarded('wrapper.__call__', call_)
+
+
 def build(ctx):
     M = machinery(ctx)
     ctx.guarded('cache', lambda: cache_section(ctx, M))
     ctx.guarded('try_value', lambda: try_value_section(ctx, M))
     ctx.guarded('try_back', lambda: try_back_section(ctx, M))
     ctx.guarded('kwargs_support', lambda: kwargs_support_section(ctx, M))
+    wrapper_section(ctx, M)
